@@ -19,6 +19,7 @@ const (
 	OIDInt4        = 23
 	OIDText        = 25
 	OIDJSON        = 114
+	OIDJSONB       = 3802
 	OIDFloat4      = 700
 	OIDFloat8      = 701
 	OIDVarchar     = 1043
@@ -75,6 +76,12 @@ func DecodeValue(oid uint32, format int16, b []byte) (string, error) {
 			return canonFloat64(math.Float64frombits(binary.BigEndian.Uint64(b))), nil
 		case OIDText, OIDVarchar, OIDJSON:
 			return "text:" + string(b), nil
+		case OIDJSONB:
+			// binary jsonb: a version byte (1) followed by the JSON text
+			if len(b) < 1 || b[0] != 1 {
+				return bad()
+			}
+			return "text:" + string(b[1:]), nil
 		case OIDBytea:
 			return "bytes:" + hex.EncodeToString(b), nil
 		case OIDUUID:
@@ -124,7 +131,7 @@ func DecodeValue(oid uint32, format int16, b []byte) (string, error) {
 			return bad()
 		}
 		return canonFloat64(v), nil
-	case OIDText, OIDVarchar, OIDJSON:
+	case OIDText, OIDVarchar, OIDJSON, OIDJSONB:
 		return "text:" + s, nil
 	case OIDNumeric:
 		return "numeric:" + s, nil
